@@ -68,6 +68,9 @@ class MultiPaxosNode(Entity):
         self._peers: list[MultiPaxosNode] = list(peers) if peers else []
         self._state_machine = state_machine or KVStateMachine()
         self._leader_lease_timeout = leader_lease_timeout
+        if heartbeat_interval <= 0:
+            # a periodic timer with a zero period re-arms itself at the current instant forever
+            raise ValueError(f"heartbeat_interval must be > 0, got {heartbeat_interval}")
         self._heartbeat_interval = heartbeat_interval
 
         # Log
